@@ -13,6 +13,12 @@ def dispatch(prop):
     if prop in ("C01", "C02", "C15"):
         import registry
         return lambda tier, seed: registry.run_registry(prop, tier, seed)
+    if prop in ("C04", "C05", "C07"):
+        import conversions
+        return lambda tier, seed: conversions.run_shapes(prop, tier, seed)
+    if prop == "C08":
+        import conversions
+        return conversions.run_c08
     raise MachineryError("no check registered for %s" % prop)
 
 
